@@ -42,6 +42,15 @@ impl Analysis<HL> for Size {
     fn merge(l: u64, r: u64) -> u64 { l.min(r) }
 }
 
+/// a SET-valued analysis (merge = union): the operators that occur in some term of the class.  Its data change at other moments than
+/// those of `Size` - in particular in the middle of `handle_pending`, when a child of the e-node being re-registered has just died (F17)
+#[derive(Default)] pub struct Ops;
+impl Analysis<HL> for Ops {
+    type Data = std::collections::BTreeSet<String>;
+    fn make(eg: &EGraph<HL, Self>, n: &HL) -> Self::Data { let mut s = Self::Data::new(); if let Some(SyntaxElem::String(op)) = n.to_syntax().into_iter().next() { s.insert(op); } for c in n.applied_id_occurrences() { s.extend(eg.analysis_data(c.id).iter().cloned()); } s }
+    fn merge(l: Self::Data, r: Self::Data) -> Self::Data { l.union(&r).cloned().collect() }
+}
+
 struct Rng(u64);
 impl Rng {
     fn next(&mut self, n: u64) -> u64 { self.0 ^= self.0 << 13; self.0 ^= self.0 >> 7; self.0 ^= self.0 << 17; self.0 % n }
@@ -139,6 +148,9 @@ fn run_history<N: Analysis<HL> + Default>(adds: &[String], unions: &[(usize, usi
 
 fn hand_written() -> Vec<(Vec<&'static str>, Vec<(usize, usize)>)> {
     vec![
+        // an e-node that is a usage of its own class and has a second child whose class dies (defect F17, fixed by c354467; shows
+        // under an analysis whose datum changes at that moment: Ops)
+        (vec!["zero", "(mul zero (g (g zero)))", "(g (g zero))", "(f3 zero zero zero)", "(g (f3 zero zero zero))", "(mul (f3 zero zero zero) (f3 zero zero zero))", "(f4 (f3 zero zero zero) zero zero zero)"], vec![(0, 1), (2, 3)]),
         // a symmetry, then a slot in its orbit becomes redundant
         (vec!["(mul (var $1) (var $2))", "(mul (var $2) (var $1))", "(mul (var $1) (var $7))"], vec![(0, 1), (0, 2)]),
         (vec!["(f3 (var $1) (var $2) (var $3))", "(f3 (var $2) (var $3) (var $1))", "(f3 (var $1) (var $2) (var $9))"], vec![(0, 1), (0, 2)]),
@@ -200,6 +212,7 @@ pub fn run(only: &[String]) -> Vec<String> {
             verif_case(format!("history: add {:?}; union {:?}", adds, unions));
             if let Err(e) = run_history::<()>(&adds, &unions) { if n < 3 { n += 1; fails.push(format!("FAIL EGraph::union C08:history.consistent history add {:?}; union {:?}: {}", adds, unions, e)); } }
             if let Err(e) = run_history::<Size>(&adds, &unions) { if n < 3 { n += 1; fails.push(format!("FAIL EGraph::union C08:history.consistent (with a min-size analysis) history add {:?}; union {:?}: {}", adds, unions, e)); } }
+            if let Err(e) = run_history::<Ops>(&adds, &unions) { if n < 3 { n += 1; fails.push(format!("FAIL EGraph::union C08:history.consistent (with a set-of-operators analysis) history add {:?}; union {:?}: {}", adds, unions, e)); } }
         }
         let seeds: u64 = if deep { verif_scale(6000) } else { 600 };
         for seed in 1..=seeds {
@@ -209,6 +222,7 @@ pub fn run(only: &[String]) -> Vec<String> {
             verif_case(format!("history (seed {}): add {:?}; union {:?}", seed, adds, unions));
             if let Err(e) = run_history::<()>(&adds, &unions) { if n < 3 { n += 1; fails.push(format!("FAIL EGraph::union C08:history.consistent history (seed {}) add {:?}; union {:?}: {}", seed, adds, unions, e)); } }
             if let Err(e) = run_history::<Size>(&adds, &unions) { if n < 3 { n += 1; fails.push(format!("FAIL EGraph::union C08:history.consistent (with a min-size analysis) history (seed {}) add {:?}; union {:?}: {}", seed, adds, unions, e)); } }
+            if let Err(e) = run_history::<Ops>(&adds, &unions) { if n < 3 { n += 1; fails.push(format!("FAIL EGraph::union C08:history.consistent (with a set-of-operators analysis) history (seed {}) add {:?}; union {:?}: {}", seed, adds, unions, e)); } }
         }
     }
 
